@@ -16,3 +16,4 @@ pub mod strmap;
 pub mod contain;
 pub mod cap13;
 pub mod typevar;
+pub mod instvar;
